@@ -266,6 +266,67 @@ func assignsTo(f *chk.Fn, o types.Object) []ast.Node {
 	return out
 }
 
+// resultForm is one value a function can return at a given return statement, with the place where that value was
+// formed (conditions about parameters that hold there still hold at the return).
+type resultForm struct {
+	E  ast.Expr // nil: a value that cannot be described (zero value, several targets)
+	At chk.Site
+}
+
+// resultForms lists what result idx of the return can be: the expression itself, or - for a result built in a local
+// ("single exit": `sel = []T{a}` in the branches, `return sel, nil` at the end) - every assignment to that local which
+// some feasible path carries to the return.
+func resultForms(g *chk.Graph, f *chk.Fn, rt chk.Site, idx int) []resultForm {
+	res := retResults(rt)
+	if idx >= len(res) {
+		return nil
+	}
+	id, ok := ast.Unparen(res[idx]).(*ast.Ident)
+	if !ok {
+		return []resultForm{{res[idx], rt}}
+	}
+	v, ok := f.ObjOf(id).(*types.Var)
+	if !ok || v.IsField() || v.Parent() == nil || v.Pkg() == nil || v.Parent() == v.Pkg().Scope() || f.IsNilLit(id) {
+		return []resultForm{{res[idx], rt}}
+	}
+	if d := f.LocalDef(id); d != nil {
+		if st := g.FactSite(d); st.B != nil {
+			return []resultForm{{d, st}}
+		}
+		return []resultForm{{d, rt}}
+	}
+	var out []resultForm
+	nonNil := g.Dominated(rt, g.GExprNil(false, f.IsObj(v)))
+	for _, n := range assignsTo(f, v) {
+		as, isAs := n.(*ast.AssignStmt)
+		if !isAs || len(as.Lhs) != len(as.Rhs) {
+			out = append(out, resultForm{nil, rt})
+			continue
+		}
+		nn := n
+		if g.Dominated(rt, chk.GNot(chk.GEvent(func(m ast.Node) bool { return m == nn }))) {
+			continue // never on a path that reaches this return
+		}
+		for i, l := range as.Lhs {
+			if lid, isId := l.(*ast.Ident); isId && f.ObjOf(lid) == types.Object(v) {
+				if f.IsNilLit(as.Rhs[i]) && nonNil {
+					continue
+				}
+				sites := g.Find(func(m ast.Node) bool { return m == nn })
+				at := rt
+				if len(sites) > 0 {
+					at = sites[0]
+				}
+				out = append(out, resultForm{as.Rhs[i], at})
+			}
+		}
+	}
+	if !nonNil {
+		out = append(out, resultForm{nil, rt}) // the zero value of a `var` declaration can get here
+	}
+	return out
+}
+
 func sortedKeys(m map[string]bool) []string {
 	var out []string
 	for k := range m {
@@ -400,8 +461,16 @@ func forallBefore(f *chk.Fn, g *chk.Graph, rs *ast.RangeStmt, phi chk.Guard, sit
 	// exit idiom
 	ends := g.LoopIteration(rs, phi)
 	exitOK := len(ends) > 0
+	// a site in the same iteration of an enclosing range loop: leaving rs for the next outer element is not a way to it
+	var outerHead *cfgBlock
+	if outer, ok := f.LoopOf(rs).(*ast.RangeStmt); ok && site.Node != nil && chk.InBody(outer, site.Node) {
+		outerHead, _, _ = g.RangeBlocks(outer)
+	}
 	for _, e := range ends {
 		if e.Break {
+			if !e.ReachesWithin(site, outerHead) {
+				continue // left early only on paths that never get to the site (an error is returned first)
+			}
 			exitOK = false
 			why = append(why, "exit idiom: the loop can be left early at "+f.Prog.Rel(endPos(e, rs)))
 		} else if !e.OK {
@@ -426,6 +495,17 @@ func forallBefore(f *chk.Fn, g *chk.Graph, rs *ast.RangeStmt, phi chk.Guard, sit
 		}
 		flags[o] = k
 	}
+	// a value that is certainly not nil where it is stored: syntactically, or a variable tested `!= nil` on every path
+	nonNilAt := func(rhs ast.Expr) bool {
+		if f.KnownNonNil(rhs) {
+			return true
+		}
+		if _, isId := ast.Unparen(rhs).(*ast.Ident); !isId || f.IsNilLit(rhs) {
+			return false
+		}
+		st := g.FactSite(rhs)
+		return st.B != nil && g.Dominated(st, g.GExprNil(false, func(e ast.Expr) bool { return f.SameValue(e, rhs) }))
+	}
 	ast.Inspect(rs.Body, func(n ast.Node) bool {
 		if as, ok := n.(*ast.AssignStmt); ok && len(as.Lhs) == len(as.Rhs) && as.Tok == token.ASSIGN {
 			for i, l := range as.Lhs {
@@ -436,7 +516,7 @@ func forallBefore(f *chk.Fn, g *chk.Graph, rs *ast.RangeStmt, phi chk.Guard, sit
 							note(o, 0)
 						case f.IsConstBool(as.Rhs[i], true):
 							note(o, 1)
-						case f.KnownNonNil(as.Rhs[i]):
+						case nonNilAt(as.Rhs[i]):
 							note(o, 2)
 						case monotone(f, o, as.Rhs[i]) == token.LOR:
 							note(o, 1) // F = F || x: can only become true
@@ -453,7 +533,8 @@ func forallBefore(f *chk.Fn, g *chk.Graph, rs *ast.RangeStmt, phi chk.Guard, sit
 		if conflict[fl] {
 			continue
 		}
-		isF := f.IsObj(fl)
+		isObjF := f.IsObj(fl)
+		isF := func(e ast.Expr) bool { return isObjF(e) || isObjF(f.Resolve(e)) } // also a plain copy of the flag
 		var kind flagKind
 		switch k {
 		case 0:
@@ -467,13 +548,13 @@ func forallBefore(f *chk.Fn, g *chk.Graph, rs *ast.RangeStmt, phi chk.Guard, sit
 		ast.Inspect(rs.Body, func(n ast.Node) bool {
 			if as, ok := n.(*ast.AssignStmt); ok {
 				for i, l := range as.Lhs {
-					if !isF(l) {
+					if !isObjF(l) {
 						continue
 					}
 					marking := i < len(as.Rhs) && len(as.Lhs) == len(as.Rhs) &&
 						((k == 0 && (f.IsConstBool(as.Rhs[i], false) || monotone(f, fl, as.Rhs[i]) == token.LAND)) ||
 							(k == 1 && (f.IsConstBool(as.Rhs[i], true) || monotone(f, fl, as.Rhs[i]) == token.LOR)) ||
-							(k == 2 && f.KnownNonNil(as.Rhs[i])))
+							(k == 2 && nonNilAt(as.Rhs[i])))
 					if !marking {
 						setBack = true
 					}
@@ -725,6 +806,56 @@ func elementOf(f *chk.Fn, coll func(ast.Expr) bool) func(ast.Expr) bool {
 	}
 }
 
+// startsEmptyBefore: the only assignments to the local list are inside the loop - it is declared without a value
+// (or as an empty literal / make of length 0) and nothing else fills it before the loop.
+func startsEmptyBefore(f *chk.Fn, g *chk.Graph, l types.Object, rs *ast.RangeStmt) bool {
+	v, ok := l.(*types.Var)
+	if !ok || v.IsField() || v.Pkg() == nil || v.Parent() == v.Pkg().Scope() {
+		return false
+	}
+	for _, n := range assignsTo(f, l) {
+		if chk.InBody(rs, n) || n.Pos() > rs.End() {
+			continue
+		}
+		as, isAs := n.(*ast.AssignStmt)
+		if !isAs || len(as.Lhs) != len(as.Rhs) {
+			return false
+		}
+		for i, lh := range as.Lhs {
+			if id, isId := lh.(*ast.Ident); isId && f.ObjOf(id) == l {
+				r := ast.Unparen(as.Rhs[i])
+				cl, isLit := r.(*ast.CompositeLit)
+				if f.IsNilLit(r) || (isLit && len(cl.Elts) == 0) || f.MatchNew("make(T, 0)", r) != nil || f.MatchNew("make(T, 0, N)", r) != nil {
+					continue
+				}
+				return false
+			}
+		}
+	}
+	// parameters and named results are not local lists
+	if f.Type.Params != nil {
+		for _, fld := range f.Type.Params.List {
+			for _, nm := range fld.Names {
+				if f.Info().Defs[nm] == l {
+					return false
+				}
+			}
+		}
+	}
+	return true
+}
+
+// memberGuard: "elem is a member of the collection": slices.Contains(coll, elem), or the equality of elem with an
+// element of coll (the value variable of a loop over coll - the form the search functions of the standard library are
+// normalised to - or coll[i]); the guard engine carries that comparison through the found-flag of the loop.
+func memberGuard(g *chk.Graph, f *chk.Fn, coll, elem func(ast.Expr) bool) chk.Guard {
+	el := elementOf(f, coll)
+	return chk.GOr(
+		g.GPat(true, "slices.Contains(C, E)", chk.H("C", coll), chk.H("E", elem)),
+		g.GPat(true, "X == E", chk.H("X", el), chk.H("E", elem)),
+		g.GPat(true, "E == X", chk.H("X", el), chk.H("E", elem)))
+}
+
 // isParamNamedOrIdx: the parameter by name, or (when it was renamed) by position.
 func isParamNamedOrIdx(f *chk.Fn, name string, idx int) func(ast.Expr) bool {
 	if f.ParamNamed(name) != nil {
@@ -807,4 +938,207 @@ func monotone(f *chk.Fn, fl types.Object, rhs ast.Expr) token.Token {
 		return be.Op
 	}
 	return token.ILLEGAL
+}
+
+// scratchRule: no slice is truncated in place (x = x[:0]) while its value is still referenced elsewhere.
+func scratchRule(p *chk.Prog, r *chk.Report, pkgs ...string) {
+	x := r.Rule("NO-ALIAS-REUSE", "D ownership (escape)", "no slice is truncated in place (`x = x[:0]`) in "+strings.Join(pkgs, ", ")+" while its previous value escapes (stored into a literal or field, returned, passed on): the holder of the old value would observe the new elements (two configurations that must differ compare equal, or an earlier record shows a later one's data)", 0)
+	n := 0
+	for _, sr := range p.ScratchReuses(pkgs...) {
+		n++
+		x.Fail("reuse:"+sr.Fn.Name()+":"+types.ExprString(sr.Reset.(*ast.AssignStmt).Lhs[0]), sr.Reset.Pos(), "the slice is reset in place although its value is still referenced through "+p.Rel(sr.Escape.Pos()))
+	}
+	if n == 0 {
+		x.OK("no-in-place-reuse-of-escaping-slices", 0, "")
+	}
+}
+
+// loopLeavesEarly reports whether the loop can be left before its last element: a
+// break / goto out of it, or a return inside its body (function literals excluded).
+func loopLeavesEarly(f *chk.Fn, g *chk.Graph, rs *ast.RangeStmt) bool {
+	if loopHasBreak(g, rs) {
+		return true
+	}
+	early := false
+	chk.InspectNoLit(rs.Body, func(n ast.Node) bool {
+		switch s := n.(type) {
+		case *ast.ReturnStmt:
+			early = true
+		case *ast.BranchStmt:
+			if s.Tok == token.GOTO && s.Label != nil {
+				// a goto whose label lies inside the body (an expanded helper's return) stays in the iteration
+				inside := false
+				ast.Inspect(rs.Body, func(m ast.Node) bool {
+					if ls, ok := m.(*ast.LabeledStmt); ok && ls.Label.Name == s.Label.Name {
+						inside = true
+					}
+					return !inside
+				})
+				if !inside {
+					early = true
+				}
+			}
+		}
+		return !early
+	})
+	return early
+}
+
+// keyedAccumulatorRule: inside a loop, a fresh container is stored under M[K] only when the key is absent; otherwise
+// what earlier iterations accumulated under the same key is thrown away (the result then depends on iteration order).
+func keyedAccumulatorRule(x *chk.R, p *chk.Prog, pkgs ...string) int {
+	n := 0
+	for _, pk := range pkgs {
+		for _, f := range p.FuncsIn(pk) {
+			g := f.Graph()
+			for _, s := range g.Find(func(nd ast.Node) bool {
+				as, ok := nd.(*ast.AssignStmt)
+				if !ok || len(as.Lhs) != 1 || len(as.Rhs) != 1 || as.Tok != token.ASSIGN {
+					return false
+				}
+				ix, ok := ast.Unparen(as.Lhs[0]).(*ast.IndexExpr)
+				if !ok || f.LoopOf(nd) == nil {
+					return false
+				}
+				if _, isMap := f.Info().TypeOf(ix.X).Underlying().(*types.Map); !isMap {
+					return false
+				}
+				return isFreshContainer(f, as.Rhs[0])
+			}) {
+				as := s.Node.(*ast.AssignStmt)
+				ix := ast.Unparen(as.Lhs[0]).(*ast.IndexExpr)
+				sameM := func(e ast.Expr) bool { return f.SameExpr(e, ix.X) }
+				sameK := func(e ast.Expr) bool { return f.SameExpr(e, ix.Index) }
+				// is the entry accumulated into elsewhere in the function?
+				acc := len(g.FindPat("M[K].Insert(ETC)", chk.H("M", sameM))) > 0 ||
+					len(g.Find(f.IsAssignPat("M[K]", "append(M[K], ETC)", chk.H("M", sameM)))) > 0 ||
+					len(g.Find(func(nd ast.Node) bool {
+						a2, ok := nd.(*ast.AssignStmt)
+						if !ok || len(a2.Lhs) != 1 {
+							return false
+						}
+						outer, ok := ast.Unparen(a2.Lhs[0]).(*ast.IndexExpr)
+						if !ok {
+							return false
+						}
+						inner, ok := ast.Unparen(outer.X).(*ast.IndexExpr)
+						return ok && sameM(inner.X)
+					})) > 0
+				if !acc {
+					continue
+				}
+				n++
+				okVar := func(e ast.Expr) bool {
+					id, isId := ast.Unparen(e).(*ast.Ident)
+					if !isId {
+						return false
+					}
+					rhs, idx := g.DefOf(id, g.FactSite(id))
+					return rhs != nil && idx == 1 && f.MatchWith("M[K]", rhs, chk.H("M", sameM), chk.H("K", sameK)) != nil
+				}
+				absent := chk.GOr(chk.GBool(false, okVar), g.GPat(true, "M[K] == nil", chk.H("M", sameM), chk.H("K", sameK)),
+					g.GPat(true, "len(M[K]) == 0", chk.H("M", sameM), chk.H("K", sameK)),
+					g.GPat(true, "V == nil", chk.H("V", definedBy(g, "M[K]", chk.H("M", sameM), chk.H("K", sameK)))))
+				x.Check("fresh-entry-only-when-absent:"+f.Name()+":"+types.ExprString(ix.X), s.Pos(), g.Dominated(s, absent), "",
+					"a fresh container is stored under "+types.ExprString(as.Lhs[0])+" although the key may already hold accumulated entries (they are lost; which ones depends on iteration order)")
+			}
+		}
+	}
+	return n
+}
+
+func isFreshContainer(f *chk.Fn, e ast.Expr) bool {
+	switch v := ast.Unparen(e).(type) {
+	case *ast.CompositeLit:
+		switch f.Info().TypeOf(v).Underlying().(type) {
+		case *types.Map, *types.Slice:
+			return true
+		}
+	case *ast.CallExpr:
+		if id, ok := v.Fun.(*ast.Ident); ok && id.Name == "make" {
+			return true
+		}
+		if fn, ok := f.Callee(v).(*types.Func); ok && fn.Pkg() != nil && fn.Pkg().Path() == "k8s.io/apimachinery/pkg/util/sets" && fn.Name() == "New" {
+			return true
+		}
+	}
+	return false
+}
+
+// cidrContainmentRule (shared by C02 and C08): pools must be pairwise disjoint, which rests on
+// config.cidrContainsCIDR being exactly "same length and same network, or shorter prefix that contains the other's
+// base address" and on cidrsOverlap testing it in both directions.
+func cidrContainmentRule(p *chk.Prog, r *chk.Report) {
+	x := r.Rule("CIDR-CONTAINS", "B path (truth table)", "config.cidrContainsCIDR(outer, inner) is `(ol == il && outer.IP.Equal(inner.IP)) || (ol < il && outer.Contains(inner.IP))` for the two prefix lengths - no other condition decides; cidrsOverlap tests containment in both directions", 2)
+	f := need(x, p, cfgPkg, "", "cidrContainsCIDR")
+	if f != nil {
+		g := f.Graph()
+		outer, inner := isParamIdx(f, 0), isParamIdx(f, 1)
+		ol := definedByIdx(g, f, "O.Mask.Size()", 0, chk.H("O", outer))
+		il := definedByIdx(g, f, "I.Mask.Size()", 0, chk.H("I", inner))
+		spec := chk.GOr(
+			chk.GAnd(g.GPat(true, "A == B", chk.H("A", ol), chk.H("B", il)), g.GPat(true, "O.IP.Equal(I.IP)", chk.H("O", outer), chk.H("I", inner))),
+			chk.GAnd(g.GPat(true, "A < B", chk.H("A", ol), chk.H("B", il)), g.GPat(true, "O.Contains(I.IP)", chk.H("O", outer), chk.H("I", inner))))
+		why := g.BoolResultIs(spec)
+		x.Check("cidrContainsCIDR:truth-table", f.Pos(), why == "", "", "cidrContainsCIDR is not exactly `same length and same network, or shorter prefix containing the other's base address`: "+why)
+	}
+	co := need(x, p, cfgPkg, "", "cidrsOverlap")
+	if co != nil {
+		g := co.Graph()
+		a, b := isParamIdx(co, 0), isParamIdx(co, 1)
+		spec := chk.GOr(g.GPat(true, "cidrContainsCIDR(A, B)", chk.H("A", a), chk.H("B", b)), g.GPat(true, "cidrContainsCIDR(B, A)", chk.H("A", a), chk.H("B", b)))
+		why := g.BoolResultIs(spec)
+		x.Check("cidrsOverlap:both-directions", co.Pos(), why == "", "", "cidrsOverlap is not containment in either direction: "+why)
+	}
+}
+
+// definedByIdx: the expression is a local defined as result idx of a tuple-valued expression matching pat.
+func definedByIdx(g *chk.Graph, f *chk.Fn, pat string, idx int, checks ...chk.HoleCheck) func(ast.Expr) bool {
+	return func(e ast.Expr) bool {
+		id, ok := ast.Unparen(e).(*ast.Ident)
+		if !ok {
+			return false
+		}
+		rhs, i := g.DefOf(id, g.FactSite(id))
+		return rhs != nil && i == idx && f.MatchWith(pat, rhs, checks...) != nil
+	}
+}
+
+// nodeExclusionRule (shared by C04, C09, C10, C12): a node is excluded from load balancers exactly when it carries the
+// exclusion label, whatever the label's value.
+func nodeExclusionRule(p *chk.Prog, r *chk.Report) {
+	x := r.Rule("NODE-EXCLUDED", "B path (truth table)", "nodes.IsNodeExcludedFromBalancers(n) is true exactly when n is not nil and n.Labels has the key node.kubernetes.io/exclude-from-external-load-balancers (comma-ok of the map lookup; the value does not matter)", 1)
+	f := need(x, p, "internal/k8s/nodes", "", "IsNodeExcludedFromBalancers")
+	if f == nil {
+		return
+	}
+	g := f.Graph()
+	n := isParamIdx(f, 0)
+	has := chk.GBool(true, func(e ast.Expr) bool {
+		id, ok := ast.Unparen(e).(*ast.Ident)
+		if !ok {
+			return false
+		}
+		rhs, idx := g.DefOf(id, g.FactSite(id))
+		return rhs != nil && idx == 1 && f.MatchWith("N.Labels[K]", rhs, chk.H("N", n), chk.H("K", constStr(f, "node.kubernetes.io/exclude-from-external-load-balancers"))) != nil
+	})
+	spec := chk.GAnd(g.GPat(false, "N == nil", chk.H("N", n)), has)
+	why := g.BoolResultIs(spec)
+	x.Check("IsNodeExcludedFromBalancers:label-presence", f.Pos(), why == "", "", "the exclusion of a node does not depend on the presence of the label alone: "+why)
+}
+
+// assignCommitsRule (shared by C01, C03, C07, C11): a successful Allocator.Assign has recorded the allocation; there
+// is no success path around the raw assign (the ports / keys recorded would be stale).
+func assignCommitsRule(p *chk.Prog, r *chk.Report) {
+	x := r.Rule("ASSIGN-COMMITS", "B path", "every `return nil` of (*Allocator).Assign is reached only through a.assign(svcKey, alloc) (no fast path that leaves the recorded ports, keys and counters as they were)", 1)
+	f := need(x, p, allocPkg, "Allocator", "Assign")
+	if f == nil {
+		return
+	}
+	g := f.Graph()
+	w := g.MustPass(chk.Site{}, func(n ast.Node) bool {
+		rs, ok := n.(*ast.ReturnStmt)
+		return ok && len(rs.Results) == 1 && f.IsNilLit(rs.Results[0])
+	}, false, f.ContainsPat("RECV.assign(K, AL)", chk.H("K", isParamIdx(f, 0))))
+	x.Check("Assign:success-needs-assign", posOf(w, f), !w.Found, "", "Assign can report success without recording the allocation (the service's ports / sharing key / pool counters keep their previous values)")
 }
